@@ -128,7 +128,23 @@ def _ops_small():
     return ops
 
 
+def _ops_tight():
+    ops = []
+    for n in (10, 20, 30):
+        for shape in ('p', 'r', 'g10'):
+            ops.append(('line', n, shape))
+        ops.append(('empty', n))
+    ops += [('del', 10, 20), ('del', 20, None), ('del', None, 10)]
+    ops += [('renum', None, None, None), ('renum', 20, 20, 10), ('new',)]
+    return ops
+
+
+# CLEAR ,n that leaves 69 bytes for the program: three short lines fit, a 40-character REM next to
+# another line does not, so replacing or inserting lines fails with Out of memory in many states
+TIGHT_MEMORY = 5300
+
 CONFIGS = {
+    'tight': {'ops': _ops_tight(), 'maxlines': 3},
     'small': {'ops': _ops_small(), 'maxlines': 3},
     'small2': {'ops': _ops_small(), 'maxlines': 2},
     'big': {'ops': _ops_big(), 'maxlines': 4},
@@ -157,6 +173,8 @@ def op_command(op):
         return (b'RENUM ' + b','.join(args)).strip()
     if kind == 'new':
         return b'NEW'
+    if kind == 'clear':
+        return b'CLEAR ,%d' % op[1]
     return None  # file operations need a bound name
 
 
@@ -181,6 +199,11 @@ def apply_op(s, model, op):
         return r, 'host-exception', viols
     rejected = r.err is not None
     must_accept = False
+    if kind == 'clear':
+        if rejected:
+            raise CheckError('%r rejected: %r' % (cmd, r.err))
+        model.tight = True
+        return r, 'clear', viols
     if kind == 'line':
         must_accept = True
     elif kind == 'new':
@@ -194,7 +217,10 @@ def apply_op(s, model, op):
         must_accept = (fmt == 'A' or kind == 'load')
     if rejected:
         label = '%s:rejected-%s' % (kind, r.err)
-        if must_accept:
+        if must_accept and r.err == 7 and getattr(model, 'tight', False):
+            # memory was limited with CLEAR: the line does not fit; nothing may have changed
+            label = '%s:out-of-memory' % kind
+        elif must_accept:
             viols.append(('rejected/%s' % kind,
                           '%r rejected with error %s but the statement requires it to take effect' % (cmd, r.err)))
         return r, label, viols
@@ -346,6 +372,19 @@ def expand_big(hist):
     return _expand(hist, 'big')
 
 
+def expand_tight(hist):
+    return _expand(hist, 'tight')
+
+
+def work_tight(shard):
+    part = Partial()
+    res = R.explore_checked(expand_tight, check_history, [(('clear', TIGHT_MEMORY),)], shard['depth'], part, label='tight',
+                            time_budget=shard.get('budget'))
+    part.add('tight_states', res['states'])
+    part.add('tight_unexpanded_frontier', res['unexpanded_frontier'])
+    return part
+
+
 def work_closure(shard):
     part = Partial()
     res = R.explore_checked(expand_small2 if shard.get('maxlines') == 2 else expand_small, check_history,
@@ -372,6 +411,10 @@ def legs(ctx):
                       '(extra closure_fixed_point=1 confirms closure)' % nsmall),
             Leg('depth', [{'depth': 3}], work_depth, exhaustive=True, serial=True,
                 bound='all histories of <=3 ops over %d ops, programs <=4 lines expanded' % nbig),
+            Leg('tight', [{'depth': 4}], work_tight, exhaustive=True, serial=True,
+                bound='all histories of <=3 ops over %d ops after CLEAR ,%d (69 bytes of program memory: line entry '
+                      'fails with Out of memory in many states and must leave the program as it was)' % (
+                          len(CONFIGS['tight']['ops']), TIGHT_MEMORY)),
         ]
     # depth 5 = 671 k transitions / 88 k states (3.5 min on 16 idle cores, ~5 ms per transition);
     # VERIF_C13_DEPTH=4 (90 k transitions) is the fallback on a loaded machine
@@ -382,6 +425,9 @@ def legs(ctx):
                   '(extra closure_fixed_point=1 confirms closure)' % nsmall),
         Leg('depth', [{'depth': depth}], work_depth, exhaustive=True, serial=True,
             bound='all histories of <=%d ops over %d ops, programs <=4 lines expanded' % (depth, nbig)),
+        Leg('tight', [{'depth': 64}], work_tight, exhaustive=True, serial=True,
+            bound='fixed point of %d ops after CLEAR ,%d (69 bytes of program memory: line entry fails with Out of '
+                  'memory in many states and must leave the program as it was)' % (len(CONFIGS['tight']['ops']), TIGHT_MEMORY)),
     ]
 
 
